@@ -7,7 +7,7 @@ import z3
 
 from contracts import strspec as sp
 from contracts.C01_vc import DEL, EOS, INS, SUB, col, model_inputs
-from vf.pyvc import api, ctensor as ct
+from vf.pyvc import api, ctensor as ct, interp as ip
 from vf.pyvc.api import VC
 
 M = "pydrobert.torch._string"
@@ -69,6 +69,161 @@ def configs(quick):
 
 def vcs(ctx):
     return [mask_vc(*c) for c in configs(ctx.quick)]
+
+
+# ---- P rung: the target lists optimal_completion builds from the mask, for SYMBOLIC shapes --------------------------------------------
+def targets_p_vc(batch_first):
+    """C03.P.targets_list. optimal_completion with `_string_matching(return_mask=True)` under CONTRACT (it returns some Boolean tensor
+    mask[h, r, n] - what that mask means is C03.P.mask_row_minima): for SYMBOLIC numbers of prefixes H, reference positions R >= 1 and
+    batch elements N, the list of prefix h and element n
+      - holds, at its first count(h, n) slots, exactly the tokens ref[n, r'] with mask[h, r', n] (every such token is listed; every
+        listed token is such a token), each ONCE and in ascending order, and
+      - holds the padding value in every later slot.
+    Assumed contracts (vf/pyvc/symtensor.py): sort = a permutation (with inverse) that makes the values non-decreasing; any = exists with a
+    witness function; sum = partial sums; max over all elements = an attained upper bound; masked_select / masked_scatter_ = row-major
+    compaction through per-dimension counters. Ghost: last(n, r) = the last sorted position holding the token of sorted position r
+    (defined by recursion towards the end of the row); lemmas by induction: last stays in range on an equal token and ends a run; the
+    innermost counters equal the partial sums of the code's own count (source) resp. clamp(c, 0, count) (destination); the counters
+    of the two outer levels agree for source and destination. Each induction is a pair of base / step obligations."""
+    import pydrobert.torch._string as S
+    from vf.pyvc import symtensor as stn
+
+    z = ip.to_z3
+    H, R, N, H0, N0, R0, R2, RP, C0, H1, N1, R1, C1 = z3.Ints("H R N h0 n0 r0 r2 rp c0 h1 n1 r1 c1")
+    PAD = z3.Int("padding")
+    Iz, Bz = z3.IntSort(), z3.BoolSort()
+    REF, MASK, LAST = z3.Function("ref", Iz, Iz, Iz), z3.Function("mask", Iz, Iz, Iz, Bz), z3.Function("last_of_run", Iz, Iz, Iz)
+    a_, b_, c_ = z3.Ints("a_q b_q c_q")
+    clamp = lambda v, lo, hi: z3.If(v < lo, lo, z3.If(v > hi, hi, v))
+    name = "optimal_completion[batch_first=%s; symbolic H, R, N; mask under contract]" % batch_first
+
+    def thunk(I):
+        I.stubs.update(stn.stubs())
+        ref = stn.ST((N, R) if batch_first else (R, N), (lambda n, r: REF(z(n), z(r))) if batch_first else (lambda r, n: REF(z(n), z(r))), "long")
+        hyp = stn.ST((N, H) if batch_first else (H, N), lambda a, b: z3.IntVal(0), "long")
+        the_mask = stn.ST((H, R, N), lambda h, r, n: MASK(z(h), z(r), z(n)), "bool")
+
+        def sm_contract(I2, a, kw):
+            I2.ex.oblige("string_matching.called_for_the_mask_of_these_sequences", z3.BoolVal(a[0] is ref and a[1] is hyp and kw.get("return_mask") is True and a[4] == batch_first))
+            return the_mask
+
+        I.contracts["pydrobert.torch._string._string_matching"] = sm_contract
+
+        def hook(rec2, src):
+            g = I.ex.ghost
+            rec1 = getattr(src, "compaction", None)
+            sums = [s_ for s_ in g.get("sums", []) if s_.get("kind") == "sum"]
+            if rec1 is None or rec1["rank_"] != 3 or rec2["rank_"] != 3 or len(sums) != 1 or len(g.get("anys", [])) != 1 or len(g.get("sorts", [])) != 1 or len(g.get("maxes", [])) != 1 or "cnt" in g:
+                raise ip.Unsupported("optimal_completion: one duplicate test (any), one sort, one count, one maximum and one scatter of the selected tokens expected")
+            an, so, sm, mx = g["anys"][0], g["sorts"][0], sums[0], g["maxes"][0]
+            PS, SRC, INV, VAL, ANY, W = sm["S"], so["SRC"], so["INV"], so["val"], an["B"], an["W"]
+            C = mx["max"]
+            M3 = lambda h, n, r: ANY(h, n, SRC(n, r))
+            KEPT = lambda h, n, r: z3.And(M3(h, n, r), z3.Or(r == R - 1, VAL(n, r) != VAL(n, r + 1)))
+            g.update(cnt=PS, VAL=VAL, KEPT=KEPT, C=C, W=W, SRC=SRC, INV=INV)
+            rows = lambda h, n: z3.And(0 <= h, h < H, 0 <= n, n < N)
+            # --- what the code's pieces are
+            I.ex.oblige("structure.extents", z3.And(sm["T"] == R, an["n"] == R, rec1["dims"][0] == H, rec1["dims"][1] == N, rec1["dims"][2] == R, rec2["dims"][0] == H, rec2["dims"][1] == N, rec2["dims"][2] == C))
+            I.ex.oblige("sorted_values_are_the_reference_tokens", z3.Implies(z3.And(0 <= N1, N1 < N, 0 <= R1, R1 < R), VAL(N1, R1) == REF(N1, SRC(N1, R1))))
+            el_ok = lambda h, n, r, rp: z3.Implies(z3.And(rows(h, n), 0 <= r, r < R, 0 <= rp, rp < R), an["el"]([h, n, r], rp) == z3.And(MASK(h, rp, n), REF(n, rp) == REF(n, r)))
+            I.ex.oblige("duplicate_test_is_flagged_and_same_token", el_ok(H1, N1, R1, C1))
+            I.ex.assume(z3.ForAll([a_, b_, c_, z3.Int("d_q")], el_ok(a_, b_, c_, z3.Int("d_q"))))
+            for y in (so["fwd"](N1, R1), so["fwd"](N1, R1 + 1), so["fwd"](N0, R0), so["fwd"](N0, R0 + 1), so["fwd"](N0, R2), so["bwd"](N0, RP)):
+                I.ex.instance(y)
+            m1 = lambda h, n, r: z3.Implies(z3.And(rows(h, n), 0 <= r, r < R), rec1["mask"]([h, n, r]) == KEPT(h, n, r))
+            m2 = lambda h, n, c: z3.Implies(z3.And(rows(h, n), 0 <= c, c < C), rec2["mask"]([h, n, c]) == (c < PS(h, n, R)))
+            cv = lambda h, n, r: z3.Implies(z3.And(rows(h, n), 0 <= r, r < R), sm["val"]([h, n], r) == z3.If(KEPT(h, n, r), 1, 0))
+            I.ex.oblige("compaction.source.mask_is_the_deduplicated_flag", m1(H1, N1, R1))
+            I.ex.oblige("compaction.destination.mask_is_the_prefix_window", m2(H1, N1, C1))
+            I.ex.oblige("compaction.counted_value_is_the_deduplicated_flag", cv(H1, N1, R1))
+            for f_ in (m1, m2, cv):
+                I.ex.assume(z3.ForAll([a_, b_, c_], f_(a_, b_, c_)))
+            for y in (sm["base"](H1, N1), sm["step"](H1, N1, R1), cv(H1, N1, R1), sm["base"](H0, N0), sm["step"](H0, N0, R0), cv(H0, N0, R0), sm["step"](H0, N0, R1), cv(H0, N0, R1), mx["ub"](H1, N1), mx["ub"](H0, N0)):
+                I.ex.instance(y)
+            # --- the count: range, growth after a kept position
+            rng = lambda h, n, r: z3.Implies(z3.And(rows(h, n), 0 <= r, r <= R), z3.And(0 <= PS(h, n, r), PS(h, n, r) <= r))
+            I.ex.oblige("count.range.base", rng(H1, N1, z3.IntVal(0)))
+            I.ex.oblige("count.range.step", z3.Implies(z3.And(0 <= R1, R1 < R, rng(H1, N1, R1)), rng(H1, N1, R1 + 1)))
+            I.ex.assume(z3.ForAll([a_, b_, c_], rng(a_, b_, c_)))
+            later = lambda r: z3.Implies(z3.And(rows(H0, N0), 0 <= R0, R0 < r, r <= R, KEPT(H0, N0, R0)), PS(H0, N0, r) >= PS(H0, N0, R0) + 1)
+            I.ex.oblige("count.grows_after_a_kept_position.base", later(R0 + 1))
+            I.ex.oblige("count.grows_after_a_kept_position.step", z3.Implies(z3.And(R0 < R1, R1 < R, later(R1)), later(R1 + 1)))
+            I.ex.assume(z3.ForAll([c_], later(c_)))
+            for y in (later(R), rng(H0, N0, R0), rng(H0, N0, R), rng(H1, N1, R), rng(H1, N1, R1)):
+                I.ex.instance(y)
+            # --- counters: innermost level against the partial sums / the prefix window, then the two outer levels
+            c1, c2 = rec1["CNT"], rec2["CNT"]
+            in1 = lambda h, n, r: z3.Implies(z3.And(rows(h, n), 0 <= r, r <= R), c1[2](h, n, r) == PS(h, n, r))
+            in2 = lambda h, n, c: z3.Implies(z3.And(rows(h, n), 0 <= c, c <= C), c2[2](h, n, c) == clamp(c, 0, PS(h, n, R)))
+            for tag, rec, lem, mm, ext in (("source", rec1, in1, m1, R), ("destination", rec2, in2, m2, C)):
+                for y in (rec["base"](2, [H1, N1]), rec["step"](2, [H1, N1], R1), mm(H1, N1, R1)):
+                    I.ex.instance(y)
+                I.ex.oblige("compaction.%s.positions.base" % tag, lem(H1, N1, z3.IntVal(0)))
+                I.ex.oblige("compaction.%s.positions.step" % tag, z3.Implies(z3.And(0 <= R1, R1 < ext, lem(H1, N1, R1)), lem(H1, N1, R1 + 1)))
+                I.ex.assume(z3.ForAll([a_, b_, c_], lem(a_, b_, c_)))
+            mid = lambda h, n: z3.Implies(z3.And(0 <= h, h < H, 0 <= n, n <= N), c1[1](h, n) == c2[1](h, n))
+            for y in (rec1["base"](1, [H1]), rec2["base"](1, [H1]), rec1["step"](1, [H1], N1), rec2["step"](1, [H1], N1), in1(H1, N1, R), in2(H1, N1, C)):
+                I.ex.instance(y)
+            I.ex.oblige("compaction.elements.base", mid(H1, z3.IntVal(0)))
+            I.ex.oblige("compaction.elements.step", z3.Implies(z3.And(0 <= N1, N1 < N, mid(H1, N1)), mid(H1, N1 + 1)))
+            I.ex.assume(z3.ForAll([a_, b_], mid(a_, b_)))
+            top = lambda h: z3.Implies(z3.And(0 <= h, h <= H), c1[0](h) == c2[0](h))
+            for y in (rec1["base"](0, []), rec2["base"](0, []), rec1["step"](0, [], H1), rec2["step"](0, [], H1), mid(H1, N)):
+                I.ex.instance(y)
+            I.ex.oblige("compaction.prefixes.base", top(z3.IntVal(0)))
+            I.ex.oblige("compaction.prefixes.step", z3.Implies(z3.And(0 <= H1, H1 < H, top(H1)), top(H1 + 1)))
+            I.ex.assume(z3.ForAll([a_], top(a_)))
+            # --- last position of a run of equal sorted tokens
+            last_def = lambda n, r: LAST(n, r) == z3.If(z3.Or(r >= R - 1, VAL(n, r + 1) != VAL(n, r)), r, LAST(n, r + 1))
+            I.ex.assume(z3.ForAll([a_, b_], last_def(a_, b_)))  # definition by recursion towards the end of the row
+            ll = lambda n, r: z3.Implies(z3.And(0 <= n, n < N, 0 <= r, r < R), z3.And(r <= LAST(n, r), LAST(n, r) < R, VAL(n, LAST(n, r)) == VAL(n, r),
+                                                                                    z3.Or(LAST(n, r) == R - 1, VAL(n, LAST(n, r) + 1) != VAL(n, LAST(n, r)))))
+            for y in (last_def(N1, R1), last_def(N1, R - 1)):
+                I.ex.instance(y)
+            I.ex.oblige("last_of_run.base", ll(N1, R - 1))
+            I.ex.oblige("last_of_run.step", z3.Implies(z3.And(0 <= R1, R1 < R - 1, ll(N1, R1 + 1)), ll(N1, R1)))
+            I.ex.assume(z3.ForAll([a_, b_], ll(a_, b_)))
+            # --- instances for the postcondition
+            q = PS(H0, N0, R0)
+            sp = INV(N0, RP)                # sorted position of the original position rp
+            lp = LAST(N0, sp)               # the kept representative of its token
+            for y in (top(H), top(H0), mid(H0, N0), in1(H0, N0, R0), in2(H0, N0, q), in2(H0, N0, C0), rec1["inj"]([H0, N0, R0]), m1(H0, N0, R0), m1(H0, N0, R2), m2(H0, N0, q), m2(H0, N0, C0),
+                      so["sorted"](N0, R0 + 1, R2), ll(N0, sp), so["fwd"](N0, lp), so["bwd"](N0, RP), m1(H0, N0, lp),
+                      an["intro"]([H0, N0, RP], RP), el_ok(H0, N0, RP, RP), an["witness"]([H0, N0, RP]), an["intro"]([H0, N0, SRC(N0, lp)], W(H0, N0, RP)), el_ok(H0, N0, RP, W(H0, N0, RP)), el_ok(H0, N0, SRC(N0, lp), W(H0, N0, RP)),
+                      an["witness"]([H0, N0, SRC(N0, R0)]), el_ok(H0, N0, SRC(N0, R0), W(H0, N0, SRC(N0, R0)))):
+                I.ex.instance(y)
+            g["last_pos"] = lp
+
+        I.ex.ghost["scatter_hooks"] = [hook]
+        return I.call(S.optimal_completion, [ref, hyp], {"batch_first": batch_first, "padding": PAD, "warn": False})
+
+    def post(p):
+        if not api.returns(p) or not hasattr(p.value, "elem") or "cnt" not in p.ghost:
+            return False
+        g = p.ghost
+        out, PS, VAL, KEPT, C, W, SRC, lp = p.value, g["cnt"], g["VAL"], g["KEPT"], g["C"], g["W"], g["SRC"], g["last_pos"]
+        oe = (lambda h, n, c: z(out.elem(n, h, c))) if batch_first else (lambda h, n, c: z(out.elem(h, n, c)))
+        at = z3.And(0 <= H0, H0 < H, 0 <= N0, N0 < N)
+        wr = W(H0, N0, SRC(N0, R0))
+        shp = (N, H, C) if batch_first else (H, N, C)
+        return [("result_shape", z3.And(z3.BoolVal(len(out.shape) == 3), z3.And([z(a) == b for a, b in zip(out.shape, shp)]))),
+                ("kept_position_puts_its_token_at_its_count", z3.Implies(z3.And(at, 0 <= R0, R0 < R, KEPT(H0, N0, R0)), z3.And(PS(H0, N0, R0) < PS(H0, N0, R), PS(H0, N0, R) <= C, oe(H0, N0, PS(H0, N0, R0)) == VAL(N0, R0)))),
+                ("padding_from_the_count_on", z3.Implies(z3.And(at, PS(H0, N0, R) <= C0, C0 < C), oe(H0, N0, C0) == PAD)),
+                ("every_flagged_token_is_listed", z3.Implies(z3.And(at, 0 <= RP, RP < R, MASK(H0, RP, N0)), z3.And(0 <= lp, lp < R, KEPT(H0, N0, lp), VAL(N0, lp) == REF(N0, RP)))),
+                ("every_listed_token_is_flagged", z3.Implies(z3.And(at, 0 <= R0, R0 < R, KEPT(H0, N0, R0)), z3.And(0 <= wr, wr < R, MASK(H0, wr, N0), REF(N0, wr) == VAL(N0, R0)))),
+                ("listed_once_each_in_ascending_order", z3.Implies(z3.And(at, 0 <= R0, R0 < R2, R2 < R, KEPT(H0, N0, R0), KEPT(H0, N0, R2)), VAL(N0, R0) < VAL(N0, R2)))]
+
+    pre = [H >= 1, R >= 1, N >= 1]
+    return VC("C03.P.targets_list", name, M, "optimal_completion", thunk, pre=pre, posts=[("deduplicated_flagged_tokens_then_padding", post)], inputs={"H": H, "R": R, "N": N}, timeout_ms=40000, max_paths=64,
+              witness_hints=[H == 1, R == 2, N == 1],
+              assumptions=["callee contract: _string_matching(return_mask=True) returns some Boolean mask[h, r, n] (its meaning: C03.P.mask_row_minima)",
+                           "sort = a permutation with inverse that makes the values non-decreasing; any = exists with a witness function; sum = partial sums; max = attained upper bound; masked_select / masked_scatter_ = row-major compaction through counters (assumed contracts of vf/pyvc/symtensor.py, differentially tested against torch)",
+                           "last_of_run defined by recursion towards the end of the row (conservative); the inductions (count range / growth, counters of the three levels, last_of_run) are applied outside the solver: base and step are obligations",
+                           "R >= 1 (the slices [..., :-1] of an empty reference are outside the index-function model): the empty reference is the S rung's and the bounded driver's"])
+
+
+def targets_p_vcs(ctx):
+    return [targets_p_vc(False), targets_p_vc(True)]
 
 
 # ---- P rung: the row-minima mask of _string_matching(return_mask=True) for SYMBOLIC shapes (R, H, N) ----------------------------------
